@@ -107,7 +107,7 @@ fn p_cap_pre(ch: &mut dyn Chooser, c: &mut Case) {
     c.pre = pick(ch, &uniq(vec![0, 1.min(c.cap), c.cap]));
 }
 
-fn read_exact_vec(c: &Case, ck: &mut Ck<'_>) {
+fn read_exact_vec(c: &Case, ck: &mut Ck) {
     let mut dest = Vec::with_capacity(c.cap);
     dest.extend_from_slice(&marks(c.pre.min(c.cap)));
     let want = dest.capacity();
@@ -119,7 +119,7 @@ fn read_exact_vec(c: &Case, ck: &mut Ck<'_>) {
     ck.exact(&r.0.tape.log, r.0.tape.calls, r.0.pos, &r.0.data, want, &res, &dest);
 }
 
-fn read_exact_box(c: &Case, ck: &mut Ck<'_>) {
+fn read_exact_box(c: &Case, ck: &mut Ck) {
     let dest = marks(c.cap).into_boxed_slice();
     let mut r = SR(reader(c));
     let BufResult(res, dest) = go!(ck, r.read_exact(dest));
@@ -132,7 +132,7 @@ fn p_slice(ch: &mut dyn Chooser, c: &mut Case) {
     c.aux = ch.choose(2);
 }
 
-fn read_exact_slice(c: &Case, ck: &mut Ck<'_>) {
+fn read_exact_slice(c: &Case, ck: &mut Ck) {
     let pos = c.pos as usize;
     let mut r = SR(reader(c));
     if pos > 0 {
@@ -168,7 +168,7 @@ fn read_exact_slice(c: &Case, ck: &mut Ck<'_>) {
 // append (user loop)
 // ---------------------------------------------------------------------------
 
-fn append_loop(c: &Case, ck: &mut Ck<'_>) {
+fn append_loop(c: &Case, ck: &mut Ck) {
     let pre = marks(c.pre.min(c.cap));
     let mut dest = Vec::with_capacity(c.cap);
     dest.extend_from_slice(&pre);
@@ -221,7 +221,7 @@ fn p_to_end(ch: &mut dyn Chooser, c: &mut Case) {
     c.cap = pick(ch, &caps(c.n)); // spare capacity beyond the pre-existing content
 }
 
-fn read_to_end_vec(c: &Case, ck: &mut Ck<'_>) {
+fn read_to_end_vec(c: &Case, ck: &mut Ck) {
     let pre = marks(c.pre);
     let mut dest = Vec::with_capacity(c.pre + c.cap);
     dest.extend_from_slice(&pre);
@@ -238,7 +238,7 @@ fn p_to_string(ch: &mut dyn Chooser, c: &mut Case) {
     c.pre = ch.choose(2);
 }
 
-fn read_to_string(c: &Case, ck: &mut Ck<'_>) {
+fn read_to_string(c: &Case, ck: &mut Ck) {
     let pre = if c.pre > 0 { "hé".to_string() } else { String::new() };
     if c.pre > 0 {
         ck.tag("pre");
@@ -297,7 +297,7 @@ fn p_rve(ch: &mut dyn Chooser, c: &mut Case) {
     c.native = ch.choose(2) == 1;
 }
 
-fn rve<R: Src, V: VShape>(c: &Case, ck: &mut Ck<'_>) {
+fn rve<R: Src, V: VShape>(c: &Case, ck: &mut Ck) {
     let ms = mk_members(&c.members, c.pre);
     let want: usize = ms.iter().map(|m| m.capacity()).sum();
     let mut r = R::make(reader(c));
@@ -307,7 +307,7 @@ fn rve<R: Src, V: VShape>(c: &Case, ck: &mut Ck<'_>) {
     ck.exact(&core.tape.log, core.tape.calls, core.pos, &core.data, want, &res, &filled);
 }
 
-pub fn vtags(c: &Case, ck: &mut Ck<'_>) {
+pub fn vtags(c: &Case, ck: &mut Ck) {
     if c.native {
         ck.tag("native");
     }
@@ -319,7 +319,7 @@ pub fn vtags(c: &Case, ck: &mut Ck<'_>) {
     }
 }
 
-fn read_vectored_exact(c: &Case, ck: &mut Ck<'_>) {
+fn read_vectored_exact(c: &Case, ck: &mut Ck) {
     vtags(c, ck);
     match (c.native, if c.members.len() == 2 { c.aux } else { 0 }) {
         (false, 0) => rve::<SR, Vec<Vec<u8>>>(c, ck),
@@ -340,7 +340,7 @@ fn p_bufreader(ch: &mut dyn Chooser, c: &mut Case) {
     c.aux = pick(ch, &uniq(vec![1, 2, c.n.max(1), c.n + 1])); // per-read destination capacity / consume mode
 }
 
-fn bufreader_read(c: &Case, ck: &mut Ck<'_>) {
+fn bufreader_read(c: &Case, ck: &mut Ck) {
     if c.cap == 0 {
         ck.tag("bufcap0");
     }
@@ -369,7 +369,7 @@ fn bufreader_read(c: &Case, ck: &mut Ck<'_>) {
     ck.collected(&r.0.tape.log, r.0.tape.calls, r.0.delivered(), &got, &errs, eof, c.cap > 0);
 }
 
-fn bufreader_fill_consume(c: &Case, ck: &mut Ck<'_>) {
+fn bufreader_fill_consume(c: &Case, ck: &mut Ck) {
     if c.cap == 0 {
         ck.tag("bufcap0");
     }
@@ -413,7 +413,7 @@ fn p_bufreader_to_end(ch: &mut dyn Chooser, c: &mut Case) {
     c.pre = pick(ch, &[0, 2]);
 }
 
-fn bufreader_read_to_end(c: &Case, ck: &mut Ck<'_>) {
+fn bufreader_read_to_end(c: &Case, ck: &mut Ck) {
     if c.cap == 0 {
         ck.tag("bufcap0");
     }
@@ -438,7 +438,7 @@ fn p_bufreader_exact(ch: &mut dyn Chooser, c: &mut Case) {
 
 /// `read_exact` / `read_vectored_exact` through a `BufReader`: the buffered
 /// reader may read ahead, so "consumed" is what the BufReader handed out.
-fn bufreader_read_exact(c: &Case, ck: &mut Ck<'_>) {
+fn bufreader_read_exact(c: &Case, ck: &mut Ck) {
     let mut br = BufReader::with_capacity(c.cap, SR(reader(c)));
     let (res, filled, want) = if c.native {
         ck.tag("vectored");
@@ -484,7 +484,7 @@ fn p_take(ch: &mut dyn Chooser, c: &mut Case) {
     c.cap = pick(ch, &uniq(vec![0, 1, c.n, 2 * c.n + 1])); // destination capacity
 }
 
-fn take_read_to_end(c: &Case, ck: &mut Ck<'_>) {
+fn take_read_to_end(c: &Case, ck: &mut Ck) {
     let limit = c.pos as usize;
     let mut t = SR(reader(c)).take(c.pos);
     let BufResult(res, dest) = go!(ck, t.read_to_end(Vec::with_capacity(c.cap)));
@@ -496,7 +496,7 @@ fn take_read_to_end(c: &Case, ck: &mut Ck<'_>) {
     }
 }
 
-fn take_read_exact(c: &Case, ck: &mut Ck<'_>) {
+fn take_read_exact(c: &Case, ck: &mut Ck) {
     let limit = c.pos as usize;
     let mut t = SR(reader(c)).take(c.pos);
     let dest = Vec::with_capacity(c.cap);
@@ -531,7 +531,7 @@ fn p_take_buf(ch: &mut dyn Chooser, c: &mut Case) {
     c.aux = ch.choose(3);
 }
 
-fn take_bufread(c: &Case, ck: &mut Ck<'_>) {
+fn take_bufread(c: &Case, ck: &mut Ck) {
     let limit = c.pos as usize;
     let mut t = BufReader::with_capacity(c.cap, SR(reader(c))).take(c.pos);
     let mut got = Vec::new();
@@ -584,7 +584,7 @@ fn p_split(ch: &mut dyn Chooser, c: &mut Case) {
     c.pre = pick(ch, &[0, 2]);
 }
 
-fn split_halves(c: &Case, ck: &mut Ck<'_>) {
+fn split_halves(c: &Case, ck: &mut Ck) {
     let pre = marks(c.pre);
     if c.pre > 0 {
         ck.tag("pre");
@@ -627,7 +627,7 @@ fn p_at(ch: &mut dyn Chooser, c: &mut Case) {
 }
 
 /// Reads of a positional helper must be contiguous from `pos`.
-fn contiguous(ck: &mut Ck<'_>, reads: &[(u64, usize)], pos: u64) {
+fn contiguous(ck: &mut Ck, reads: &[(u64, usize)], pos: u64) {
     let mut at = pos;
     for (p, k) in reads {
         if *p != at {
@@ -638,7 +638,7 @@ fn contiguous(ck: &mut Ck<'_>, reads: &[(u64, usize)], pos: u64) {
     }
 }
 
-fn at_tags(c: &Case, ck: &mut Ck<'_>) {
+fn at_tags(c: &Case, ck: &mut Ck) {
     if c.pos as usize > c.n {
         ck.tag("beyond-end");
     } else if c.pos > 0 {
@@ -646,7 +646,7 @@ fn at_tags(c: &Case, ck: &mut Ck<'_>) {
     }
 }
 
-fn read_exact_at(c: &Case, ck: &mut Ck<'_>) {
+fn read_exact_at(c: &Case, ck: &mut Ck) {
     at_tags(c, ck);
     let r = SRA::new(super::payload(c.n, 0), c.script.clone());
     let dest = Vec::with_capacity(c.cap);
@@ -660,7 +660,7 @@ fn read_exact_at(c: &Case, ck: &mut Ck<'_>) {
     ck.exact(&tape.log, tape.calls, delivered, &r.data[start..], want, &res, &dest);
 }
 
-fn read_to_end_at(c: &Case, ck: &mut Ck<'_>) {
+fn read_to_end_at(c: &Case, ck: &mut Ck) {
     at_tags(c, ck);
     if c.pre > 0 {
         ck.tag("pre");
@@ -685,7 +685,7 @@ fn p_rve_at(ch: &mut dyn Chooser, c: &mut Case) {
     c.pre = pick(ch, &[0, 2]);
 }
 
-fn read_vectored_exact_at(c: &Case, ck: &mut Ck<'_>) {
+fn read_vectored_exact_at(c: &Case, ck: &mut Ck) {
     at_tags(c, ck);
     vtags(c, ck);
     let r = SRA::new(super::payload(c.n, 0), c.script.clone());
